@@ -515,7 +515,8 @@ func (m *Model) collectionOpportunity(now time.Time) {
 				continue
 			}
 			_, subjBlob := r.blobs[s]
-			subjKept := keep[s] == keepMan
+			// (a subject of a known family is present per the API history, but the server may not have it in its index)
+			subjKept := keep[s] == keepMan && r.causeOf(s) == ""
 			w, dg := m.k.refWithSubj(), m.k.refDangling()
 			drop := false
 			switch {
